@@ -11,6 +11,7 @@ Scenario fields (all optional, JSON-able so it can be stored in a replay file):
   paging        : {inv_number: [first_page, page]} | "random"
   resp_page     : page size of checkpoint responses
   timer_lag     : seconds by which the backend lags in flipping timers
+  api_latency   : virtual seconds a checkpoint API call takes (other threads run meanwhile)
   ext           : {path: [outcome, payload|error]} outcome of external completions (default SUCCEEDED)
   ext_order     : "timers_first" | "ext_first" | "random"
   max_inv       : bound on invocations
@@ -123,10 +124,15 @@ class Execution:
             s.progress()
             s.log("ApiReturn", n=info["n"], ok=info["ok"], err=info["err"], inv=self.rec.inv,
                   changed=[c[:8] for c in info.get("changed", [])])
-        # yield point so that a crash can separate "applied" from "response received"
+        # scheduling point so that a crash can separate "applied" from "response received"; the API call may also take
+        # (virtual) time, so that other threads can enqueue while it is in flight
         sch, me = ds.current()
         if me is not None:
-            sch.yield_point(me, kind)
+            lat = self.sc.get("api_latency", 0.0) if kind == "ApiCall" else 0.0
+            if lat:
+                ds.vsleep(lat)
+            else:
+                sch.yield_point(me, kind)
 
     # ---- one invocation -----------------------------------------------------------------------------
     def _strategy(self, inv):
